@@ -67,6 +67,17 @@ class TEBD(TTNTimeEvolution):
         self._exponents = self._trotter_splitting.exponentiate_splitting(self._time_step_size,
                                                                          self.state)
 
+    def set_num_time_steps_constant_final_time(self, num_time_steps: int):
+        """
+        Sets the number of time-steps and keeps the final time constant.
+
+        The Trotter operators are exponentiated again with the new time step
+        size.
+        """
+        super().set_num_time_steps_constant_final_time(num_time_steps)
+        self._exponents = self._trotter_splitting.exponentiate_splitting(self._time_step_size,
+                                                                         self.state)
+
     @property
     def exponents(self) -> List[NumericOperator]:
         """
